@@ -1,0 +1,15 @@
+//go:build verif && verif_buffers
+
+package obfs4
+
+import "net"
+
+// VerifBuffered reports how many undecoded and decoded-but-unread bytes an
+// obfs4 connection currently holds.
+func VerifBuffered(conn net.Conn) (undecoded, decoded int, ok bool) {
+	c, ok := conn.(*obfs4Conn)
+	if !ok {
+		return 0, 0, false
+	}
+	return c.receiveBuffer.Len(), c.receiveDecodedBuffer.Len(), true
+}
